@@ -100,7 +100,9 @@ def run_jobshop_instance(r, jobs, deep):
 
                 for script, (res, err) in e2.explore(run, max_execs=2000, stats=r):
                     r["n"] += 1
-                    r["counters"]["transitions"] += len(script.choices)
+                    nn = len(script.choices) - len(script.prefix) + 1
+                    r["counters"]["js_states"] += nn
+                    r["counters"]["transitions"] += nn if script.prefix else nn - 1
                     r["counters"]["traces"] += 1
                     if script.choices:
                         r["nontrivial"] += 1
@@ -147,7 +149,7 @@ def _js_chunk(params, lo, hi):
         if len(r["violations"]) >= 40 or too_many_hangs():
             r["capped"] = True
             break
-    r["counters"]["states"] += r["n"]
+    r["counters"]["states"] += r["counters"].pop("js_states", 0)
     return r
 
 
@@ -400,7 +402,9 @@ def _solve_chunk(params, lo, hi):
 
                     for script, (res, err) in e2.explore(run, max_dev=2, max_execs=1500, stats=r):
                         r["n"] += 1
-                        r["counters"]["transitions"] += len(script.choices)
+                        nn = len(script.choices) - len(script.prefix) + 1
+                        r["counters"]["sv_states"] += nn
+                        r["counters"]["transitions"] += nn if script.prefix else nn - 1
                         r["counters"]["traces"] += 1
                         r["nontrivial"] += 1
                         wit = dict(wit0, max_iter=mi, choices=list(script.choices))
@@ -438,7 +442,9 @@ def _solve_chunk(params, lo, hi):
                 break
     finally:
         vrp.Random, lns.Random = real
-    r["counters"]["states"] += r["n"]
+    r["counters"]["states"] += r["counters"].pop("sv_states", 0) + (0 if scripted else r["n"])
+    if not scripted:
+        r["counters"]["transitions"] += r["n"]
     return r
 
 
